@@ -3,9 +3,13 @@
 //! Parsers return `Err(String)` describing the first structural defect.
 
 pub mod cksum;
+pub mod icmp6;
+pub mod ieee802154;
 pub mod ip;
+pub mod lowpan;
 pub mod mini;
 pub mod tcp;
+pub mod udp6;
 
 pub type R<T> = Result<T, String>;
 
